@@ -6,6 +6,7 @@ import PgsVerif.Model.Comment
 import PgsVerif.Model.Context
 import PgsVerif.Model.Persist
 import PgsVerif.Model.Gen
+import PgsVerif.Model.FailStop
 /-
   JSON glue: one `Engine` per correspondence.  Only decoding/encoding lives here; every function
   called is the very definition the theorems in `PgsVerif/Props` are about.
@@ -232,7 +233,31 @@ def engine : Engine :=
     (fun i o => judge i.cfg i.opsL (o.map EvJ.toEv))
 end C13
 
+/-! ### C14 fail-stop -/
+namespace C14
+structure In where
+  input : String
+  arts : List Persist.ArtJ
+  procs : List Persist.Proc
+  fs0 : List Persist.FileEnt
+  dirs0 : List Bytes
+  fsIdx : Option Nat
+  fsOp : String
+  out : String
+deriving FromJson, ToJson
+deriving instance FromJson, ToJson for Outcome
+def In.plan (i : In) : Plan :=
+  { input := match i.input with | "readError" => .readError | "garbage" => .garbage | "noTargets" => .noTargets | _ => .none,
+    arts := i.arts.map Persist.ArtJ.toArt, procs := i.procs,
+    fs0 := ⟨i.fs0.map (fun e => { e with path := Persist.norm e.path }), i.dirs0.map Persist.norm⟩,
+    fsFault := i.fsIdx.map fun k => (k, match i.fsOp with
+      | "mkdir" => FsOp.mkdir | "stat" => .stat | "open" => .open_ | "write" => .write | "close" => .close | _ => .short),
+    out := match i.out with | "error" => .error | "short" => .short | _ => .none }
+def engine : Engine :=
+  mkEngine (I := In) (O := Outcome) (fun i => run i.plan) (fun _ => true) (fun i o => judge i.plan o)
+end C14
+
 def engines : List (String × Engine) :=
-  [ ("c11", C11.engine), ("fp", FP.engine), ("c15", C15.engine), ("c19", C19.engine), ("c20", C20.engine), ("c18", C18.engine), ("c10", Persist.engineC10), ("c12", Persist.engineC12), ("c11p", Persist.engineC10), ("c13", C13.engine) ]
+  [ ("c11", C11.engine), ("fp", FP.engine), ("c15", C15.engine), ("c19", C19.engine), ("c20", C20.engine), ("c18", C18.engine), ("c10", Persist.engineC10), ("c12", Persist.engineC12), ("c11p", Persist.engineC10), ("c13", C13.engine), ("c14", C14.engine) ]
 
 end Pgs
